@@ -84,8 +84,8 @@ var repackExempt = map[string]string{
 	"SVCBMandatory.pack:bigendian (2*(rangeindex+1))+2 <= len(t11)":                                                          "the key list is captured by the sort closure, so its loads are separate heap cells; needs 2*i+2 <= 2*len(codes)",
 	"SVCBMandatory.pack$1:index i+1 <= len(*codes)":                                                                          "indices handed to a sort.Slice less function are within the slice that was sorted (contract of package sort)",
 	"SVCBMandatory.pack$1:index j+1 <= len(*codes)":                                                                          "indices handed to a sort.Slice less function are within the slice that was sorted (contract of package sort)",
-	"packDataAplPrefix:slice-high (((net.IPMask).Size()#0+7)/8)+0 <= len((net.IP).Mask())":                                   "length of a net.IPMask / net.IP.Mask result; trailing-zero trimming loop counts down over it",
-	"packDataAplPrefix:index-low 0 <= i+1 in (net.IP).Mask()[:(((net.IPMask).Size()#0+7)/8)]":                                "length of a net.IPMask / net.IP.Mask result; trailing-zero trimming loop counts down over it",
+	"APLPrefix.wireAddress:slice-high (((net.IPMask).Size()#0+7)/8)+0 <= len((net.IP).Mask())":                               "length of a net.IPMask / net.IP.Mask result; trailing-zero trimming loop counts down over it",
+	"APLPrefix.wireAddress:index-low 0 <= i+1 in (net.IP).Mask()[:(((net.IPMask).Size()#0+7)/8)]":                            "length of a net.IPMask / net.IP.Mask result; trailing-zero trimming loop counts down over it",
 	"packDataNsec:index-low 0 <= ((off+1)+(((*bitmap[(rangeindex+1)]-((*bitmap[(rangeindex+1)]/256)*256))/8)+1))+0 in msg":   "0 <= off + 1 + bit/8 + 1: lower bound of a sum of non-negative terms behind a modulo written as x - (x/256)*256",
 	"packDataNsec:index-low 0 <= ((off+1)+(((*bitmap[(rangeindex+1)]-((*bitmap[(rangeindex+1)]/256)*256))/8)+1))+0 in msg#2": "0 <= off + 1 + bit/8 + 1: lower bound of a sum of non-negative terms behind a modulo written as x - (x/256)*256",
 	"packDataSVCB$1:index i+1 <= len(*pairs)":                                                                                "indices handed to a sort.Slice less function are within the slice that was sorted (contract of package sort)",
